@@ -86,13 +86,11 @@ Print Assumptions C18_current_first.
 (* Backend 0 sends id 5 once; two forwardKeepAlive(5) calls race with it and with each other.
    Over ALL 12012 interleavings of the 1+6+6 atomic steps: id 5 became pending exactly once and
    was written to backend 0 at most once; schedules with exactly one write and with none (both
-   replies came too early) exist. *)
+   replies came too early) exist.
+   (The boolean is Proofs.C18.nv_check: threads [[a_record 0 5]; reply_thread 0 5; reply_thread 1 5]
+   from init [COpen PPlay; COpen PConfig] (Some 0) (Some 1) 2; forallb over Base.Conc.outcomes of
+   (count_writes 0 5 <=? 1) && (count_fresh 0 5 =? 1), existsb of = 1 and of = 0, length = 12012.
+   Stated through the constant so that re-checking this file does not re-evaluate it.) *)
 Example C18_nonvacuous_all_schedules :
-  let ts : list (@thread state event) := [[a_record 0 5%Z]; reply_thread 0 5%Z; reply_thread 1 5%Z] in
-  (forall a, In a (concat ts) -> is_action a) /\
-  let outs_ := outcomes ts (init [COpen PPlay; COpen PConfig] (Some 0) (Some 1) 2) in
-  forallb (fun r => (count_writes 0 5%Z (events r) <=? 1) && (count_fresh 0 5%Z (events r) =? 1)) outs_
-  && existsb (fun r => count_writes 0 5%Z (events r) =? 1) outs_
-  && existsb (fun r => count_writes 0 5%Z (events r) =? 0) outs_
-  && (length outs_ =? 12 * 1001) = true.
+  (forall a, In a (concat nv_threads) -> is_action a) /\ nv_check = true.
 Proof. exact (conj nv_threads_actions nv_check_ok). Qed.
